@@ -1026,6 +1026,86 @@ def primary_written_cases(tier, rng):
                                 yield primary_written_case(haps, primary, tagged, n_groups, extras, n_nohap, bpt, rng, n)
 
 
+# ------------------------------------------------------------------------------- enumerated: tagged pieces of one input scaffold
+
+
+def tagged_pieces_case(haps, special, pattern, style, spread, bpt, rng, n):
+    """
+    a map of one or two haplotypes (haps; 2 painted chromosomes each, tagged) and ONE input scaffold T cut at texel boundaries into
+    len(pattern) pieces, each an unpainted Pretext scaffold of its own carrying the tag `special` (Haplotig / Contaminant /
+    FalseDuplicate) and the haplotype tag pattern[i] (index into haps, or None = no haplotype tag): equal, different or partly
+    missing haplotype tags on pieces that all go to the one assembly of their tag, where names must be unique.
+      style  plain = T is called scaffold_<n>;  named = T is called <HAP>_SCAFFOLD_<n> after the first haplotype
+      spread front = the pieces are the first scaffolds of the map / apart = one piece in front of each painted chromosome /
+             back = behind the chromosomes
+    """
+    inp = []
+
+    def src(h, lengths, gaps=None):
+        i = len(inp) + 1
+        name = f"{h.upper()}_SCAFFOLD_{i}" if h else f"scaffold_{i}"
+        sc = pg.make_scaffold(name, lengths, [rng.choice((1, -1)) for _ in lengths], gaps, "fasta", tag=str(i))
+        inp.append(sc)
+        return sc
+
+    plan = []
+    for g in range(2):
+        for hi, h in enumerate(haps):
+            sc = src(h, [(400, 300)[g] - 30 * hi])
+            plan.append({"painted": True, "hap": h, "name_tag": None, "pieces": [(pg.pieces_of(sc, bpt, "floor", ())[0], rng.choice((1, -1)), [])]})
+    for h in haps:
+        sc = src(h, [70])
+        plan.append({"painted": False, "hap": None, "name_tag": None, "pieces": [(pg.pieces_of(sc, bpt, "floor", ())[0], 1, [])]})
+    k = len(pattern)
+    t_src = src(haps[0] if style == "named" else None, [120] * k if n % 2 else [120 * k], [(10, "scaffold")] * (k - 1) if n % 2 else None)
+    n_tex = pg.texels(pg.rows_len(t_src["rows"]), bpt, "floor")
+    cuts = tuple(n_tex * j // k for j in range(1, k))
+    tagged = [{"painted": False, "hap": None if hi is None else haps[hi], "name_tag": None, "pieces": [(pc, rng.choice((1, -1)), [special])]}
+              for pc, hi in zip(pg.pieces_of(t_src, bpt, "floor", cuts), pattern, strict=True)]
+    if n % 3 == 0:
+        tagged.reverse()
+    n_painted = 2 * len(haps)
+    if spread == "front":
+        plan = tagged + plan
+    elif spread == "back":
+        plan = plan[:n_painted] + tagged + plan[n_painted:]
+    else:
+        for j, sc in enumerate(tagged):
+            plan.insert(min(2 * j, len(plan)), sc)
+    mp = pg.plan_to_map(plan, bpt, rng)
+    return {"input": inp, "map": mp, "prefix": ("SUPER_", "chr", "Chr_")[n % 3], "via": ("agp", "tpf", "objects")[n % 3], "mode": "two" if len(haps) == 2 else "single",
+            "family": "tagged-pieces", "cli_out": CLI_OUT_NAMES[n % len(CLI_OUT_NAMES)]}
+
+
+def tagged_pieces_cases(tier, rng):
+    """
+    ENUMERATED scope "tagged pieces of one input scaffold" (statement: within each output assembly scaffold names are unique):
+    tagged_pieces_case for 2 or 3 pieces x each of Haplotig / Contaminant / FalseDuplicate x EVERY pattern of haplotype tags on the
+    pieces (first / second haplotype / none: equal, different, partly missing) in maps of two haplotypes (Hap1/Hap2, Mat/Pat) or
+    one (Hap1: tag / none).  quick: two pieces: every pattern, three pieces: every fourth; name style, place and texel size
+    rotate; thorough: x plain / named x front / apart / back x texel sizes 1 and 10.  Every case also runs the command line.
+    """
+    quick = tier == "quick"
+    n = 0
+    for haps in (("Hap1", "Hap2"), ("Mat", "Pat"), ("Hap1",)):
+        if quick and haps == ("Mat", "Pat"):
+            continue
+        for k in (2, 3):
+            for pi, pattern in enumerate(itertools.product([*range(len(haps)), None], repeat=k)):
+                for si, special in enumerate(pg.SPECIAL_TAGS):
+                    if quick:
+                        n += 1
+                        if k == 3 and (pi + si) % 4:
+                            continue
+                        yield tagged_pieces_case(haps, special, pattern, ("plain", "named")[n % 2], ("front", "apart", "back")[(n // 2) % 3], (1.0, 10.0)[(n // 3) % 2], rng, n)
+                        continue
+                    for style in ("plain", "named"):
+                        for spread in ("front", "apart", "back"):
+                            for bpt in (1.0, 10.0):
+                                n += 1
+                                yield tagged_pieces_case(haps, special, pattern, style, spread, bpt, rng, n)
+
+
 def _fx(name, *rows):
     return {"name": name, "rows": list(rows)}
 
@@ -1071,13 +1151,14 @@ def run(tier, seed, **opts):
         "which (first, middle, last) is too small to be resolved and is not written; 15 % of the seeded maps and an enumerated scope (one / two joined / two cut pieces, "
         "front / between / back / last, 0 or 2 haplotypes) hold a scaffold that carries a chromosome-name tag (Y, W, Z, B1, B2) but is NOT painted; an enumerated scope of "
         "Primary-tag maps (either haplotype curated, haplotype tags or names only, 0-2 unplaced scaffolds of no haplotype behind the other haplotype, Unloc / named pair / "
-        "Haplotig); oracle: names, numbering, size ranking, order and CSV from the statement, on the returned dict and - for every enumerated case of these two scopes and "
+        "Haplotig); an enumerated scope of 2-3 pieces of ONE input scaffold, each an unpainted scaffold tagged Haplotig / Contaminant / FalseDuplicate under every pattern of "
+        "haplotype tags (equal, different, partly missing); oracle: names, numbering, size ranking, order and CSV from the statement, on the returned dict and - for every enumerated case of these two scopes and "
         "every n-th seeded case - on the assembly files and *.chromosome.list.csv files the pretext-to-asm command line WRITES (TPF or AGP, read back by hand); "
         "non-trivial = distinct completed case with >= 2 painted scaffolds or an Unloc/Haplotig piece"
     )
     n_cases = 3500 if tier == "quick" else 80000
     cli_every = 20 if tier == "quick" else 40  # every n-th seeded case is also run through the command line
-    stats = {"rejected_tagging": 0, "judged": 0, "single": 0, "two": 0, "three": 0, "hap-order": 0, "emptied-haplotig": 0, "emptied-unloc": 0, "name-tag": 0, "primary-written": 0, "enumerated_rejected": 0, "cli": 0}
+    stats = {"rejected_tagging": 0, "judged": 0, "single": 0, "two": 0, "three": 0, "hap-order": 0, "emptied-haplotig": 0, "emptied-unloc": 0, "name-tag": 0, "primary-written": 0, "tagged-pieces": 0, "enumerated_rejected": 0, "cli": 0}
     side = {}
 
     def stream():
@@ -1090,6 +1171,8 @@ def run(tier, seed, **opts):
         for c in name_tag_cases(tier, random.Random(f"c10-name-tag-{seed}")):
             yield -1, c
         for c in primary_written_cases(tier, random.Random(f"c10-primary-written-{seed}")):
+            yield -1, c
+        for c in tagged_pieces_cases(tier, random.Random(f"c10-tagged-pieces-{seed}")):
             yield -1, c
         for j in range(n_cases):
             c = make_case(rng, j)
@@ -1118,7 +1201,7 @@ def run(tier, seed, **opts):
     return col.result(
         bounds=(
             f"{len(FIXED_CASES)} fixed hand-made cases + {stats['hap-order']} enumerated haplotype-order cases + {stats['emptied-haplotig']} / {stats['emptied-unloc']} "
-            f"enumerated lost-piece cases in a Haplotig / Unloc series + {stats['name-tag']} enumerated named-but-not-painted cases + {stats['primary-written']} enumerated Primary-tag-mode cases "
+            f"enumerated lost-piece cases in a Haplotig / Unloc series + {stats['name-tag']} enumerated named-but-not-painted cases + {stats['primary-written']} enumerated Primary-tag-mode cases + {stats['tagged-pieces']} enumerated cases of 2-3 equally tagged pieces of one input scaffold under equal / different / missing haplotype tags "
             f"({stats['enumerated_rejected']} enumerated cases rejected) + {n_cases} seeded cases; cases also run through the command line (written files judged): {stats['cli']}; up to ~40 input scaffolds x <= 3 contigs (lengths 7-400, gaps 1-200); texel sizes {{1,2.5,10,33.3}}; painted scaffolds / "
             f"unloc pieces whose destination was identified and judged: {stats['judged']}; maps rejected with "
             f"TaggingError/ChrNamerError (allowed): {stats['rejected_tagging']}; single-haplotype={stats['single']} "
